@@ -1081,7 +1081,8 @@ impl PartialVersion {
     }
 
     pub fn full_range(&self) -> RangeInclusive<CrsqlSeq> {
-        CrsqlSeq(1)..=self.last_seq
+        // sequences start at 0
+        CrsqlSeq(0)..=self.last_seq
     }
 }
 
